@@ -327,6 +327,39 @@ func stringsIntrinsic(name string, fn *ssa.Function) intrinsicFn {
 			}
 			return x.newToken("dec", t)
 		}
+	case "strconv.Unquote":
+		// Only the case the real implementation cannot reach is modelled: a JSON text standing for a string (token).
+		// JSON and Go string literals agree except where JSON allows what Go does not: "\/" and surrogate pairs. A peer is
+		// free to write a '/' either way, so unquoting the JSON text of a string containing '/' may fail.
+		return func(x *Exec, f *ssa.Function, a []Value) Value {
+			ti := x.tokenOf(a[0])
+			if ti == nil || ti.kind != "json" {
+				if t, ok := a[0].(*Term); ok && t.IsConc() {
+					r, err := strconv.Unquote(t.C.(string))
+					if err != nil {
+						return tup(mkStr(""), x.newErr("strconv: "+err.Error()))
+					}
+					return tup(mkStr(r), nilErr)
+				}
+				x.abort("UNSUPPORTED", "strconv.Unquote of a symbolic non-token string")
+			}
+			arg := ti.arg
+			if iv, ok := arg.(*IfaceV); ok && iv != nil {
+				arg = iv.V
+			}
+			if !isStringVal(arg) {
+				return tup(mkStr(""), x.newErr("strconv: invalid syntax"))
+			}
+			sv := x.toStrV(arg)
+			has := tFalse
+			for _, b := range sv.B {
+				has = tOr(has, tOr(tEq(b, mkInt('/')), tLe(mkInt(0xF0), b)))
+			}
+			if x.branch(has) && x.choose('c', 2, nil) == 1 {
+				return tup(mkStr(""), x.newErr("strconv: invalid syntax (JSON-only escape)"))
+			}
+			return tup(arg, nilErr)
+		}
 	case "strconv.Atoi", "strconv.ParseInt":
 		return func(x *Exec, f *ssa.Function, a []Value) Value {
 			if ti := x.tokenOf(a[0]); ti != nil && ti.kind == "dec" {
